@@ -1,6 +1,7 @@
 (* C02 — statements only. *)
 From Coq Require Import Reals List ZArith Permutation.
-From TFV Require Import Base.RBase Shape.LineShapes Rot.Wigner Amp.Dalitz3 Amp.Superpose Amp.Superpose_proofs Amp.Unitary Amp.Unitary_proofs.
+From Coquelicot Require Import Complex.
+From TFV Require Import Base.RBase Shape.LineShapes Rot.Wigner Rot.DHom_ids Rot.DHom Amp.Dalitz3 Amp.Superpose Amp.Superpose_proofs Amp.Unitary Amp.Unitary_proofs Rot.DHom_apps.
 Import ListNotations.
 Open Scope R_scope.
 
@@ -24,10 +25,29 @@ Theorem C02_common_parent_rotation_drops_out : forall j2 alpha beta gamma (X : Z
 Proof. exact D_removes_rotation. Qed.
 Print Assumptions C02_common_parent_rotation_drops_out.
 
-(* FULL statement (not proved, kept visible): the relative alignment elements R_ref' R_k^-1 and
-   R_ref R_k^-1 differ by the common factor R_ref' R_ref^-1, and D is a group homomorphism, so
-   that the change of reference IS a common D matrix.  The homomorphism law is not yet a theorem of the
-   model; this step is tied to the code (densities under every convention certified equal). *)
-Definition C02_reference_change_is_common_unitary_statement : Prop :=
-  forall j2 alpha beta gamma (X : Z -> C), (0 <= j2 <= 8)%Z ->
-  zsum (m_range j2) (fun f => Cnorm2 (D_apply_right j2 alpha beta gamma X f)) = hel_norm2 j2 X.
+(* A change of the alignment reference multiplies every chain's alignment element by ONE common matrix G
+   (R_ref' R_k^-1 = (R_ref' R_ref^-1)(R_ref R_k^-1)).  By the group law the summed amplitude is then the old one
+   times the spin-j matrix of G - for ANY complex 2x2 G, any number of chains, 2j <= 8 ... *)
+Theorem C02_reference_change_is_common_matrix : forall j2 (chs : list chain) (G : M2) f,
+  (0 <= j2 <= 8)%Z -> In f (m_range j2) ->
+  Famp j2 (realign G chs) f = csum (fun l' => (Famp j2 chs l' * DmatM j2 l' f G)%C) (m_range j2).
+Proof. exact align_ref_change_is_common_matrix. Qed.
+Print Assumptions C02_reference_change_is_common_matrix.
+
+(* ... and when G is a rotation (given by Euler angles) the helicity-summed density is unchanged *)
+Theorem C02_reference_change_preserves_density : forall j2 (chs : list chain) al be ga, (0 <= j2 <= 8)%Z ->
+  zsum (m_range j2) (fun f => Cnorm2 (Famp j2 (realign (mconj (Euler al be ga)) chs) f))
+  = zsum (m_range j2) (fun l => Cnorm2 (Famp j2 chs l)).
+Proof. exact align_ref_change_preserves_density. Qed.
+Print Assumptions C02_reference_change_preserves_density.
+
+(* the same on the parent index (common change of z axis / frame acts from the left) *)
+Theorem C02_parent_frame_change_preserves_density : forall j2 (chs : list chain) al be ga, (0 <= j2 <= 8)%Z ->
+  zsum (m_range j2) (fun lam => Cnorm2 (Hamp j2 (realign_left (mconj (Euler al be ga)) chs) lam))
+  = zsum (m_range j2) (fun lam => Cnorm2 (Hamp j2 chs lam)).
+Proof. exact align_left_change_preserves_density. Qed.
+Print Assumptions C02_parent_frame_change_preserves_density.
+
+(* Not proved: that the code's alignment elements for two conventions differ by a common G (a statement about
+   cal_angle's SU(2) bookkeeping) - tied by the certified comparison of the code under every convention; and
+   products over several spinning final particles are stated one index at a time. *)
